@@ -159,10 +159,13 @@ Theorem C18_action_params_roundtrip :
 Proof. exact params_roundtrip. Qed.
 Print Assumptions C18_action_params_roundtrip.
 
-(* OPEN (stated, not proved; the three ingredients are proved: C18_action_params_roundtrip, C18_expr_roundtrip for the
-   conjuncts, C18_effect_roundtrip): the whole action.  Missing: the 0/1/n-conjunct cases of the "(and ...)" precondition
-   group, the assembly, the text-level layout of the "(:action ...)" block, and the correspondence for the block. *)
-Definition C18_action_roundtrip_goal : Prop :=
+(* THE WHOLE ACTION, structural level: for every action of the fragment [pddl_action_ok] (no precondition simplifies to
+   FALSE; the written conjuncts - preconditions simplified, TRUE dropped, a top-level And flattened - are fixpoints of the
+   simplifier and printable; effects in [pddl_eff_ok]) the writer produces the parameter tokens, the "(and c1 .. cn)"
+   precondition group (n = 0, 1, many; "()" or no :precondition for an action without preconditions) and the effect
+   group, and the reader rebuilds [norm_action simp a]: same typed parameters, ONE precondition = the conjunction of the
+   normalised conjuncts (none when it is TRUE), effects = [norm_effs]. *)
+Theorem C18_action_roundtrip :
   forall (simp : expr -> expr) (isb : N -> bool) (nm : naming) (E : env),
     (forall f, PddlExpr.e_fl E (nm_fl nm f) = Some f) ->
     (forall f, is_kw (nm_fl nm f) = false) ->
@@ -183,18 +186,47 @@ Definition C18_action_roundtrip_goal : Prop :=
       pddl_action_ok simp isb a = true ->
       exists x, print_action simp nm rewrite empty_pre a = Some (Some x)
                 /\ parse_action simp E isb x = Some (norm_action simp a).
+Proof. exact action_roundtrip. Qed.
+Print Assumptions C18_action_roundtrip.
 
-(* OPEN: the semantic corollary.  With Planning/Sem.v: for every interpretation I that binds the parameters,
-   all preconditions of [a] hold in I  <->  the precondition of [norm_action simp a] holds in I
-   (C18_expr_norm_preserves_eval + the simplifier's soundness on the preconditions, which is C11's theorem and would be a
-   hypothesis here), and the successor is the same (C18_effect_roundtrip_same_successor, already proved). *)
-Definition C18_action_same_behaviour_goal : Prop :=
-  forall (simp : expr -> expr) (isb : N -> bool) (sc : bool) (I : interp) (P : problem) (s : state) (a : paction)
-         (acts : list aeff),
-    (forall x v, eval sc x I = Some v -> eval sc (simp x) I = Some v) ->
-    pddl_action_ok simp isb a = true ->
-    (forall p, In p (pa_pre a) -> exists b, eval sc p I = Some (VBool b)) ->
-    forallb (holds sc I) (pa_pre a) = forallb (holds sc I) (pa_pre (norm_action simp a))
-    /\ (fired sc I (pa_effs a) = Some acts ->
-        exists acts', fired sc I (pa_effs (norm_action simp a)) = Some acts'
-                      /\ forall f args, spec_succ P s acts' f args = spec_succ P s acts f args).
+(* ... and the re-read action BEHAVES like the written one: in every interpretation in which the Simplifier is sound on
+   conditions (hypothesis: it preserves [holds]; this is C11's subject) all preconditions of [a] hold exactly when the
+   precondition of [norm_action simp a] holds, and whenever the effects of [a] fire [acts], the effects of the re-read
+   action fire assignments that pass the conflict check equally and give the same successor from every state. *)
+Theorem C18_action_same_behaviour :
+  forall (simp : expr -> expr) (isb : N -> bool) (sc : bool) (I : interp),
+    (forall x, holds sc I (simp x) = holds sc I x) ->
+    forall (P : problem) (s : state) (a : paction),
+      pddl_action_ok simp isb a = true ->
+      forallb (holds sc I) (pa_pre (norm_action simp a)) = forallb (holds sc I) (pa_pre a)
+      /\ forall acts, fired sc I (pa_effs a) = Some acts ->
+           exists acts', fired sc I (pa_effs (norm_action simp a)) = Some acts'
+                         /\ spec_effects_ok P s acts' = spec_effects_ok P s acts
+                         /\ forall f args, spec_succ P s acts' f args = spec_succ P s acts f args.
+Proof. exact action_same_behaviour. Qed.
+Print Assumptions C18_action_same_behaviour.
+
+(* non-vacuity: an action with two typed parameters, three preconditions (one simplifier-trivial shape: a top-level And
+   that is flattened), and the all-shapes effect list; identity simplifier; both theorems' premises hold *)
+Definition ex_action : paction :=
+  {| pa_params := [(0%N, 0%N); (1%N, 1%N)];
+     pa_pre := [EAnd [EFluent 0 []; ENot (EFluent 2 [EParam 0])]; ELe (EInt 0) (EFluent 1 [EParam 1])];
+     pa_effs := ex_effs |}.
+Example C18_action_nonvacuous :
+  pddl_action_ok (fun x => x) ex_isb ex_action = true
+  /\ (exists x, print_action (fun x => x) ex_nm true false ex_action = Some (Some x)
+                /\ parse_action (fun x => x) ex_env ex_isb x = Some (norm_action (fun x => x) ex_action))
+  /\ pa_pre (norm_action (fun x => x) ex_action)
+     = [EAnd [EFluent 0 []; ENot (EFluent 2 [EParam 0]); ELe (EInt 0) (EFluent 1 [EParam 1])]].
+Proof.
+  split; [vm_compute; reflexivity|]. split; [|vm_compute; reflexivity].
+  apply (action_roundtrip (fun x => x) ex_isb ex_nm ex_env (pref_ok "x") (fun f => eq_refl) (pref_ok "b") (fun o => eq_refl)
+           (fun o => eq_refl) (pref_ok "p") (pref_ok "v") (fun p v (H : pref_nm "p" p = pref_nm "v" v) => ltac:(discriminate H))
+           (pref_ok "t") (fun t => eq_refl) ex_num (fun f => eq_refl) (fun f => eq_refl) (fun o => eq_refl) (fun t => eq_refl)).
+  vm_compute. reflexivity.
+Qed.
+Print Assumptions C18_action_nonvacuous.
+
+(* OPEN: the text layout of the "(:action name :parameters ( ...) :precondition ... :effect ...)" block and its
+   character-by-character correspondence (the three groups inside are covered: C18_expr_text_roundtrip,
+   C18_effect_text_roundtrip, the parameter tokens). *)
